@@ -94,6 +94,17 @@ type Options struct {
 	// does) instead of the scope instance in which the recovery operator
 	// was entered.
 	DynamicRecoveryScope bool
+	// LeftRec enables the denotation of left-recursive rules (what
+	// -support-left-recursion promises): the first rule of a first-call
+	// cycle entered at a position is evaluated by seed growing - first with
+	// the recursive reference failing, then repeatedly with the reference
+	// yielding the previous result as long as the match gets longer - which
+	// for A <- A a1 / ... / b1 / ... is exactly (b1/...) followed by greedily
+	// repeated (a1/...), left-nested.
+	LeftRec bool
+	// LeaderHeads: only these rules grow a seed (nil: the first rule of a
+	// cycle entered at a position does).
+	LeaderHeads map[string]bool
 	// Quirks switches on models of known defects of the implementation; they
 	// are only ever used to decide whether an observed disagreement is
 	// exactly the listed known finding (never to excuse anything else).
@@ -229,13 +240,16 @@ type Interp struct {
 	invert   bool
 	rstack   []*Rule
 	handlers []handler
-	active   map[string]bool
+	active   map[string]int
 	evals    int
 	advanced map[int]bool
 	backtr   bool
 	reentry  string
 	curText  string // what c.text / c.pos hold in the implementation (QPredStale)
 	curPos   [3]int
+	seeds    map[string]memoVal
+	growing  map[string]int // SCC id -> number of heads growing, per position key
+	an       *Analysis
 	memo     map[memoKey]memoVal
 	ruleMemo map[string]memoVal
 }
@@ -254,7 +268,7 @@ func (ip *Interp) ruleName() string {
 
 // Run evaluates the grammar on the input.
 func Run(g *Grammar, in []byte, script map[int]*rtapi.Block, o Options) (res *Result) {
-	ip := &Interp{G: g, In: in, Script: script, O: o, Pos: NewPosTable(in), active: map[string]bool{}, advanced: map[int]bool{}}
+	ip := &Interp{G: g, In: in, Script: script, O: o, Pos: NewPosTable(in), active: map[string]int{}, advanced: map[int]bool{}}
 	if o.InitState && o.HasState {
 		ip.st = store{hasS: true, hasL: true}
 	}
@@ -410,21 +424,113 @@ func (ip *Interp) evalRule(r *Rule, pos int) (bool, int, any) {
 			return m.ok, m.end, m.val
 		}
 	}
-	if ip.active[key] {
+	if ip.O.LeftRec {
+		if sd, ok := ip.seeds[key]; ok {
+			return sd.ok, sd.end, sd.val
+		}
+		if ip.an == nil {
+			ip.an = Analyze(ip.G)
+			ip.seeds = map[string]memoVal{}
+			ip.growing = map[string]int{}
+		}
+		if ip.an.LeftRec[r.Name] && ip.isHead(r, pos) {
+			return ip.grow(r, pos, key)
+		}
+	}
+	if ip.active[key] > 0 && !(ip.O.LeftRec && ip.an.LeftRec[r.Name] && !ip.isHeadFree(r, pos)) {
+		// (a non-head rule of a cycle may be re-entered while the head's seed
+		// bounds the recursion)
 		if ip.reentry == "" {
 			ip.reentry = key
 		}
 		panic(&refPanic{kind: "diverge", why: "rule " + key + " re-entered"})
 	}
-	ip.active[key] = true
+	ip.active[key]++
 	ip.rstack = append(ip.rstack, r)
 	ok, end, val := ip.eval(r.Expr, pos, map[string]any{})
 	ip.rstack = ip.rstack[:len(ip.rstack)-1]
-	delete(ip.active, key)
+	ip.active[key]--
 	if useMemo {
 		ip.ruleMemo[key] = memoVal{ok, end, val}
 	}
 	return ok, end, val
+}
+
+// isHead decides whether the left-recursive rule r, entered at pos, grows a
+// seed: no rule of its cycle is growing one at this position already.
+func (ip *Interp) isHead(r *Rule, pos int) bool {
+	if ip.O.LeaderHeads != nil {
+		return ip.O.LeaderHeads[r.Name]
+	}
+	for k := range ip.seeds {
+		i := strings.LastIndex(k, "@")
+		if k[i+1:] != strconv.Itoa(pos) {
+			continue
+		}
+		other := k[:i]
+		// same cycle: each reaches the other
+		if ip.reaches(other, r.Name) && ip.reaches(r.Name, other) {
+			return false
+		}
+	}
+	return true
+}
+
+// isHeadFree reports whether no seed of r's cycle exists at pos.
+func (ip *Interp) isHeadFree(r *Rule, pos int) bool {
+	for k := range ip.seeds {
+		i := strings.LastIndex(k, "@")
+		if k[i+1:] != strconv.Itoa(pos) {
+			continue
+		}
+		other := k[:i]
+		if ip.reaches(other, r.Name) && ip.reaches(r.Name, other) {
+			return false
+		}
+	}
+	return true
+}
+
+func (ip *Interp) reaches(from, to string) bool {
+	seen := map[string]bool{}
+	var dfs func(n string) bool
+	dfs = func(n string) bool {
+		for m := range ip.an.First[n] {
+			if m == to {
+				return true
+			}
+			if !seen[m] {
+				seen[m] = true
+				if dfs(m) {
+					return true
+				}
+			}
+		}
+		return false
+	}
+	return from == to || dfs(from)
+}
+
+// grow evaluates a left-recursive rule by seed growing.
+func (ip *Interp) grow(r *Rule, pos int, key string) (bool, int, any) {
+	seed := memoVal{ok: false, end: pos}
+	for depth := 0; ; depth++ {
+		ip.seeds[key] = seed
+		savedSt, nerrs := ip.st, len(ip.errs)
+		ip.rstack = append(ip.rstack, r)
+		ok, end, val := ip.eval(r.Expr, pos, map[string]any{})
+		ip.rstack = ip.rstack[:len(ip.rstack)-1]
+		if !ok || (end <= seed.end && depth != 0) {
+			// errors and state changes of the final, non-extending attempt
+			// are not retained
+			ip.st = savedSt
+			ip.errs = ip.errs[:nerrs]
+			break
+		}
+		seed = memoVal{ok, end, val}
+	}
+	delete(ip.seeds, key)
+	return seed.ok, seed.end, seed.val
 }
 
 func foldEq(a, b rune) bool {
